@@ -418,6 +418,11 @@ class Receiver:
         self.log = core.EventLog()
         self.n = 0
         self.reuse_parsed = {} if knobs.get("reuse_parsed") else None
+        # a second, independent watcher in the same process (another receiver site; own observer, nothing it reports is used) that hears the
+        # same bursts a few bursts late
+        self.twin = TransmissionWatcher(observers=[Rec("twin", EntropySeam(7))]) if knobs.get("twin_lag") else None
+        self.twin_q = []
+        self.twin_lag = knobs.get("twin_lag") or 0
 
     def tracker(self, term, ts):
         t = self.watcher.terminals.get(term)
@@ -500,6 +505,24 @@ class Receiver:
             return None
         self.n += 1
         self.clock["t"] += 0.03
+        if self.twin is not None:
+            self.twin_q.append((bytes(data), bt, term, ts))
+            if len(self.twin_q) > self.twin_lag:
+                td, tbt, tterm, tts = self.twin_q.pop(0)
+                tb = self._parse(td, tbt)
+                if tb is not None:
+                    tb.target_radio_id, tb.timeslot = tterm, tts
+                    old = sys.stdout
+                    sys.stdout = self.sink
+                    try:
+                        self.twin.process_burst(tb)
+                    except BaseException:
+                        pass
+                    finally:
+                        sys.stdout = old
+                        self.sink.seek(0)
+                        self.sink.truncate()
+                    self.res.fault("twin_watcher_delivery")
         cls = self.classify(b)
         key = self.pdu_key(b, cls)
         b.target_radio_id = term
